@@ -119,6 +119,16 @@ func runHist(ci interface{}, s *vkit.Stats) error {
 	st := map[int]*mstate{}
 	var fp []string
 	nontrivial := false
+	// one way of addressing a method per history (Struct.Method / Struct.ExportMethod vs Pkg.ExportStruct.Method): two handle
+	// kinds on one target in one builder are two independent mockers, which no property describes
+	howOf := map[int]int{}
+	howFor := func(m *corpus.Method, drawn int64) int {
+		if h, ok := howOf[m.Tag]; ok {
+			return h
+		}
+		howOf[m.Tag] = int(drawn & 0xff)
+		return howOf[m.Tag]
+	}
 	// callOne calls method m on instance inst and checks it against the model
 	callOne := func(step int, m *corpus.Method, inst int, code int64) error {
 		t := st[m.Tag]
@@ -206,7 +216,7 @@ func runHist(ci interface{}, s *vkit.Stats) error {
 		case "apply":
 			rec := &corpus.Rec{}
 			var how string
-			if pv := guard(func() { how = apply(b, m, int(op.I[2]&0xff), m.MkRepl(rec), nil) }); pv != nil {
+			if pv := guard(func() { how = apply(b, m, howFor(m, op.I[2]), m.MkRepl(rec), nil) }); pv != nil {
 				return fmt.Errorf("step %d: mocking %s.%s (ptr=%v) with a callback panicked: %v", step, t.Name, m.Name, m.Ptr, pv)
 			}
 			st[m.Tag] = &mstate{kind: "repl", rec: rec}
@@ -222,7 +232,7 @@ func runHist(ci interface{}, s *vkit.Stats) error {
 				continue // a second Return would extend the sequence (property C05); keep this model simple
 			}
 			var how string
-			if pv := guard(func() { how = apply(b, m, int(op.I[2]&0xff), nil, vals) }); pv != nil {
+			if pv := guard(func() { how = apply(b, m, howFor(m, op.I[2]), nil, vals) }); pv != nil {
 				return fmt.Errorf("step %d: stubbing %s.%s (ptr=%v) panicked: %v", step, t.Name, m.Name, m.Ptr, pv)
 			}
 			st[m.Tag] = &mstate{kind: "ret", ret: res}
@@ -272,6 +282,7 @@ func runHist(ci interface{}, s *vkit.Stats) error {
 			b.Reset()
 			b = mocker.Create()
 			st = map[int]*mstate{}
+			howOf = map[int]int{}
 			fp = append(fp, "reset")
 		}
 	}
